@@ -122,6 +122,59 @@ def mixed_backing_stacks(rnd, tier):
     return progs
 
 
+def empty_stacks(rnd, tier):
+    """C04: pieces of length 0 along the stack dimension - first, in the
+    middle, last, all of them: the first file still decides the variables
+    that do not have the dimension, and an all-empty stack keeps every
+    variable."""
+    def sl(a, b):
+        return {'k': 'slice', 'h': [a is not None, b is not None, False],
+                'v': [a or 0, b or 0, 0]}
+    nowhere = {'h': False, 'shape': [], 'bits': []}
+    progs = []
+    for t, d, hi in (('T1', 't', 202), ('T4', 't', 0), ('T7', 't', 763),
+                     ('T1', 'x', 202)):
+        steps = [
+            # 2: a masked version (variables without d differ from object 1)
+            {'act': 'mask', 'src': 1, 'others': [], 'args': {
+                'p': [{'k': 'greater', 'v': hi}], 'where': nowhere,
+                'usedims': {'h': False, 'v': []}, 'coords': False}},
+            # 3: empty piece of the masked version, 4: empty piece of the plain
+            {'act': 'slice', 'src': 2, 'others': [], 'args': {
+                'sels': [{'d': d, 's': sl(0, 0)}], 'newdim': 'POINTS'}},
+            {'act': 'slice', 'src': 1, 'others': [], 'args': {
+                'sels': [{'d': d, 's': sl(0, 0)}], 'newdim': 'POINTS'}}]
+        for src, others, aslist in ((3, [1], False), (3, [1], True),
+                                    (1, [3], False), (1, [3, 1], True),
+                                    (3, [4], False), (4, [3], True),
+                                    (3, [3, 4], True), (4, [2], False)):
+            steps.append({'act': 'stack', 'src': src, 'others': others,
+                          'args': {'dim': d, 'aslist': aslist}})
+        progs.append({'templates': [t], 'steps': steps})
+    return progs
+
+
+def disk_applies(rnd, tier):
+    """C03: named reducers and callables along every dimension of a
+    DISK-BACKED file whose variables have missing cells (the data of a
+    netCDF4 variable are a masked array, the variable object is not)."""
+    dims = {'T2': ['t', 'x'], 'T4': ['t', 'y', 'x'], 'T7': ['t', 'z', 'x']}
+    progs = []
+    for t in sorted(dims):
+        steps = [{'act': 'reopen', 'src': 1, 'others': [],
+                  'args': {'format': 'NETCDF4_CLASSIC'}}]
+        for d in dims[t]:
+            for red in ('mean', 'sum', 'min', 'max'):
+                steps.append({'act': 'apply', 'src': 2, 'others': [],
+                              'args': {'funcs': [{'d': d, 'kind': 'reducer',
+                                                  'f': red}]}})
+        steps.append({'act': 'apply', 'src': 2, 'others': [], 'args': {
+            'funcs': [{'d': dims[t][0], 'kind': 'reducer', 'f': 'max'},
+                      {'d': dims[t][-1], 'kind': 'reducer', 'f': 'min'}]}})
+        progs.append({'templates': [t], 'steps': steps})
+    return progs
+
+
 UNLIM = {'T1': ['t'], 'T2': ['t'], 'T3': ['t'], 'T5': ['time'], 'T7': ['t']}
 
 
@@ -560,10 +613,12 @@ def run(prop, tier, extra=None):
         progs += mfopen_stacks(rnd, tier)
         progs += fill_stacks(rnd, tier)
         progs += mixed_backing_stacks(rnd, tier)
+        progs += empty_stacks(rnd, tier)
     if prop == 'C03':
         progs += multidim_applies(rnd, tier)
         progs += stringform_applies(rnd, tier)
         progs += selection_applies(rnd, tier)
+        progs += disk_applies(rnd, tier)
     if prop == 'C02':
         progs += zipped_selections(rnd, tier)
         progs += stringform_slices(rnd, tier)
